@@ -1346,6 +1346,9 @@ func (g *gen) genOverride() stepIn {
 		{"logging.compress", val{K: "b", B: true}},
 		{"logging.compress", val{K: "b", B: false}},
 		{"proxy.ca_cert", val{K: "s", S: "ssl/ca.crt"}},
+		{"proxy.ca_key", val{K: "s", S: emit.Pick(r, strValid)}},
+		{"proxy.ca_key", val{K: "s", S: "ssl/ca.key"}},
+		{"logging.file", val{K: "s", S: emit.Pick(r, strValid)}},
 	}
 	c := emit.Pick(r, choices)
 	st := stepIn{Kind: "override", Idx: g.by[c.path], Val: c.v, Limit: -1}
@@ -1364,7 +1367,7 @@ func (g *gen) genOverride() stepIn {
 
 // command-line flag (config/overrides.go) of a setting, where the flag's value has the setting's own form
 var flagOf = map[string]string{
-	"proxy.listen": "listen", "proxy.ca_cert": "ca-cert", "cache.file.dir": "cache-dir", "webserver.listen": "webserver-listen",
+	"proxy.listen": "listen", "proxy.ca_cert": "ca-cert", "proxy.ca_key": "ca-key", "logging.file": "log-file", "cache.file.dir": "cache-dir", "webserver.listen": "webserver-listen",
 	"webserver.dashboard_disabled": "no-dashboard", "webserver.api_disabled": "no-api",
 	"logging.max_backups": "log-file-max-backups", "logging.compress": "log-file-compress", "logging.to_stdout": "log-to-stdout",
 }
